@@ -9,6 +9,8 @@ CONSTANTS
   Secondaries = {"none"}
   WithDelete = FALSE
   WithSame = TRUE
+  WithBad = TRUE
+  NOther = 1
   NW = 1
   Emit = FALSE
 SPECIFICATION FairSpec
